@@ -13,6 +13,7 @@
 package c14
 
 import (
+	"encoding/json"
 	"fmt"
 	"sort"
 	"strings"
@@ -176,6 +177,18 @@ func checkVerdict(c Case, ctx *vcommon.Ctx) *vcommon.Failure {
 	if bo.IsErr {
 		return vcommon.Failf("build/well-formed-rejected", "a well-formed schema is rejected at construction (%s: %s)\n%s", bo.Cond, bo.Msg, build)
 	}
+	// s:is-falsy is documented as "the logical negation of is-truthy" /
+	// "Literally (s:not (s:is-truthy))": a twin schema with every s:is-falsy
+	// spelled that way must give the same outcome on every input, also where
+	// the docs leave truthiness itself open.
+	twin := falsyTwin(s)
+	if twin != nil {
+		tb := strings.TrimPrefix(buildNamed(twin, c.Mode, "vt2", "t"), typedefs)
+		if to := rt.Load(tb); to.IsErr {
+			return vcommon.Failf("build/falsy-twin-rejected", "the schema builds but its twin with (s:not (s:is-truthy)) for (s:is-falsy) does not (%s: %s)\n%s", to.Cond, to.Msg, tb)
+		}
+		ctx.Class("falsy-twin")
+	}
 	classifySchema(s, ctx)
 	ctx.Class("mode/" + c.Mode)
 	ctx.Class("input/" + c.Input.K)
@@ -195,6 +208,12 @@ func checkVerdict(c Case, ctx *vcommon.Ctx) *vcommon.Failure {
 		vo := rt.Load("(s:validate vt inp)")
 		obs := observe(vo)
 		outcomes[r.label] = obs
+		if twin != nil {
+			if obs2 := observe(rt.Load("(s:validate vt2 inp)")); obs2.set != obs.set {
+				return vcommon.Failf("is-falsy/differs-from-not-is-truthy", "[%s] (s:is-falsy) and (s:not (s:is-truthy)) disagree: %s vs %s\n%s(s:validate vt %s)",
+					r.label, obs.desc, obs2.desc, strings.TrimPrefix(build, typedefs), r.expr)
+			}
+		}
 		e := rs.New(rs.Quirks{})
 		want := e.Validate(s, r.model)
 		ctx.Class("rendering/" + r.label)
@@ -263,6 +282,35 @@ func checkVerdict(c Case, ctx *vcommon.Ctx) *vcommon.Failure {
 	return known
 }
 
+// falsyTwin returns a copy of s with every (s:is-falsy) replaced by
+// (s:not (s:is-truthy)), or nil when s has none.
+func falsyTwin(s *rs.Schema) *rs.Schema {
+	has := false
+	s.Walk(func(c *rs.Con, _ int) {
+		if c.Op == "is-falsy" {
+			has = true
+		}
+	})
+	if !has {
+		return nil
+	}
+	raw, err := json.Marshal(s)
+	if err != nil {
+		return nil
+	}
+	var t rs.Schema
+	if json.Unmarshal(raw, &t) != nil {
+		return nil
+	}
+	t.Walk(func(c *rs.Con, _ int) {
+		if c.Op == "is-falsy" {
+			c.Op = "not"
+			c.Refs = []rs.Ref{{Kind: "con", Con: &rs.Con{Op: "is-truthy"}}}
+		}
+	})
+	return &t
+}
+
 func genCase(jsonish bool) *rapid.Generator[Case] {
 	return rapid.Custom(func(t *rapid.T) Case {
 		g := &sgen{t: t, jsonish: jsonish}
@@ -289,9 +337,11 @@ func genCase(jsonish bool) *rapid.Generator[Case] {
 
 func TestCheck(t *testing.T) {
 	vcommon.Main(t, "C14",
-		vcommon.S("verdict", 60000, 2000000, genCase(false), checkVerdict),
+		vcommon.S("verdict", 50000, 1800000, genCase(false), checkVerdict),
 		vcommon.S("jsonmaps", 30000, 1000000, genCase(true), checkVerdict),
 		vcommon.S("typelists", 15000, 400000, genTypeLists(), checkVerdict),
+		vcommon.S("truthiness", 8000, 200000, genTruthiness(), checkVerdict),
+		vcommon.S("scoped", 10000, 250000, genScoped(), checkVerdict),
 		vcommon.S("malformed", 20000, 750000, genMalformed(), checkMalformed),
 	)
 }
